@@ -12,6 +12,8 @@ Inductive presented :=
     (* headers rebuilt by a holder of the group secret: claims device d and counter ctr; the
        payload box is sealed with [key]; the signature attached is one made by [signer] over
        [payload] *)
+| PForgedOwn (d ctr : N) (key : msgkey) (payload signer : N)
+    (* the same, presented to the store whose own device is d *)
 | PGarbage.                               (* headers or payload box do not open at all *)
 
 Definition present (s : store) (p : presented) (cid : N) : result :=
@@ -20,6 +22,9 @@ Definition present (s : store) (p : presented) (cid : N) : result :=
   | PForged d ctr key payload signer =>
     fst (open_step s {| e_group := grp; e_dev := d; e_ctr := ctr; e_key := key;
                         e_payload := payload; e_signer := signer |} cid None)
+  | PForgedOwn d ctr key payload signer =>
+    fst (open_step s {| e_group := grp; e_dev := d; e_ctr := ctr; e_key := key;
+                        e_payload := payload; e_signer := signer |} cid (Some d))
   | PGarbage => RFail
   end.
 
